@@ -1,12 +1,14 @@
 import DriverLib.Util
 -- BEGIN-GENERATED-IMPORTS
 import DriverLib.C13
+import DriverLib.C14
 -- END-GENERATED-IMPORTS
 open Lean Drv
 
 def handlers : List (String → Json → Option R) := [
 -- BEGIN-GENERATED-HANDLERS
-  Drv.C13.handle
+  Drv.C13.handle,
+  Drv.C14.handle
 -- END-GENERATED-HANDLERS
 ]
 
